@@ -24,16 +24,16 @@ import (
 
 // BlockResult is what one concurrent block observed.
 type BlockResult struct {
-	Findings     []*check.Finding
-	Inconclusive string
-	Class        string // conflict class of the block
-	Senders      int
-	Requests     int
-	Relays       int
-	Members      int
+	Findings      []*check.Finding
+	Inconclusive  string
+	Class         string // conflict class of the block
+	Senders       int
+	Requests      int
+	Relays        int
+	Members       int
 	ViewsCompared int
-	OrderSig     string // order of the senders' first relays at a witness (interleaving signature)
-	Desc         []string
+	OrderSig      string // order of the senders' first relays at a witness (interleaving signature)
+	Desc          []string
 }
 
 type blockReq struct {
@@ -194,7 +194,11 @@ func Block(ws *sut.Workspace, p *sut.Proc, cfg e1.Config, class string) (res *Bl
 	if joinerWanted {
 		j, err := scen.Dial(p, cfg.Mods, "")
 		must(err)
-		defer j.Close()
+		// the next block on this process must not start while this departure is still in progress
+		defer func() {
+			j.Close()
+			scen.Departed(p, j, 8*time.Second)
+		}()
 		joiner = j
 	}
 	start := make(chan struct{})
